@@ -43,6 +43,7 @@ func propC02(c *Ctx) {
 	for _, t := range []string{"2e+x", "7E+(3)", "1.5e+ 2", "2e-x", "3E-", "2e", "2e+", "1e+5x", "2e+5", "2e-5", "1.e+x", ".5e+x", "2e + x", "2 e+x", "2e+-3", "2e++3", "x + 2e+",
 		"3.5e38", "1e39", "4e38 + 1", "1 + 1e999", "99999999999999999999", "a[99999999999999999999]", "-3.5e38",
 		"\f", "\v", "\x1f", " \f ", "/* only a comment */", "/* c */ \f", "\x00", "\x01 \x02",
+		"x Iſ NULL", "x iſ not null", "falſe OR x", "a lıke 'b'", "x ıs null", "x ıN (1)", "nuLL", "TRUE aNd fAlSe", "x Iſ nuLL", "not falſe", "1 ıN 2", "x \u212a", "TRU\u0395",
 		"1 + 😀 2", "😀", "1 😀", "a + \U00010000", "\uffff 1", "1 \uffff + 2", "f(😀)", "'😀' + 😀"} {
 		runParseCase(c, t, "incomplete-exponent / astral")
 	}
